@@ -234,6 +234,7 @@ def ops_for(tier, nheld):
     for u in U[:4]:
         for v in U[:4]:
             ops.append(("addgen", u, v))  # add(generator yielding u, v and then raising)
+            ops.append(("addlazy", u, v))  # add(generator yielding u, v that reads every view of the library in between)
     for old in [("u", u) for u in U] + [("p", p) for p in range(nheld)]:
         for new in U:
             for fail in (True, False):
@@ -242,7 +243,7 @@ def ops_for(tier, nheld):
 
 
 def grows(op):
-    return {"add": 1, "addl": 2, "addgen": 2}.get(op[0], 0)
+    return {"add": 1, "addl": 2, "addgen": 2, "addlazy": 2}.get(op[0], 0)
 
 
 class World:
@@ -282,6 +283,18 @@ class World:
                 real = lambda: lib.add(list(bl), fail_on_duplicate_key=op[3])
                 ref = lambda: model.add(bl, op[3])
                 flag = op[3]
+            elif kind == "addlazy":
+                bl = [self.uni[op[1]], self.uni[op[2]]]
+
+                def lazy():
+                    for b_ in bl:
+                        # the caller's iterable looks at the library while add is consuming it (a merge that skips what is there)
+                        _ = (lib.entries, lib.strings, lib.preambles, lib.comments, lib.failed_blocks, dict(lib.entries_dict), dict(lib.strings_dict), list(lib.blocks))
+                        yield b_
+
+                real = lambda: lib.add(lazy())
+                ref = lambda: model.add(bl, False)
+                flag = False
             elif kind == "addgen":
                 a, b = self.uni[op[1]], self.uni[op[2]]
 
@@ -370,7 +383,7 @@ class World:
         except ValueError:
             ref_raised = "ValueError"
         case = {"history": hist, "op": op, "tier_universe": list(self.uni), "keymap": dict(KEYMAP), "library_class": LIBCLS[0].__name__}
-        opname = {"add": "add", "addl": "add", "rem": "remove", "reml": "remove", "rep": "replace"}[kind]
+        opname = {"add": "add", "addl": "add", "addlazy": "add", "rem": "remove", "reml": "remove", "rep": "replace"}[kind]
         if raised == "ValueError":
             after = canon(lib)
             if after != before:
@@ -707,7 +720,7 @@ def run_shard(shard, tier, acc):
             if n + grows(op) > L:
                 continue
             # the pair-list operations are covered by the closure; the guard keeps single-block ops (depth matters here)
-            if op[0] in ("addl", "reml", "addgen"):
+            if op[0] in ("addl", "reml", "addgen", "addlazy"):
                 continue
             w = build(tier, hist)
             st = w.apply(op, acc, hist)
